@@ -22,6 +22,8 @@ import Ajson.Proofs.Sides
 import Ajson.Proofs.CloneSound
 import Ajson.Proofs.Steps
 import Ajson.Proofs.CloneValue
+import Ajson.Proofs.CellsSteps
+import Ajson.Proofs.EqSymm
 import Ajson.Model.Decode
 import Ajson.Spec.WF
 
@@ -122,6 +124,22 @@ theorem C14_equal_value {h : Heap} (hs : Struct h) (ha : Acyc h) (n : Nat) (hn :
     absVal F (h.clone n).1 (h.clone n).2 = absVal F h n ∧
     (∀ m : Nat, m < h.size → absVal F (h.clone n).1 m = absVal F h m) :=
   clone_same_value hs ha n hn F
+
+/-- **`Eq` says so**: right after `Clone()` — on any sound acyclic heap whose container cells are right (every parsed heap, and whatever
+steps and reads make of it: `reachedS_sound`) — `original.Eq(clone)` and `clone.Eq(original)` answer true, whenever the original
+denotes a value without a NaN in it (every value a JSON text denotes) -/
+theorem C14_eq_says_equal {h : Heap} (hs : Struct h) (ha : Acyc h) (c : CellsAll h) (n : Nat) (hn : n < h.size) (v : JVal)
+    (ev : absVal ((h.clone n).1.size + 1) h n = some v) (nn : noNaN v = true) :
+    ((h.clone n).1.eq (some n) (some (h.clone n).2)).2 = .ok true ∧ ((h.clone n).1.eq (some (h.clone n).2) (some n)).2 = .ok true := by
+  obtain ⟨s', _, hlt, hroot⟩ := clone_sound hs ha n hn
+  have c' := (clone_cells h n c).ok
+  obtain ⟨e1, e2⟩ := clone_same_value hs ha n hn ((h.clone n).1.size + 1)
+  have hn' : n < (h.clone n).1.size := Nat.lt_trans hn hlt
+  have hr' : (h.clone n).2 < (h.clone n).1.size := by rw [hroot]; exact hlt
+  have evn : absVal ((h.clone n).1.size + 1) (h.clone n).1 n = some v := by rw [e2 n hn]; exact ev
+  have evc : absVal ((h.clone n).1.size + 1) (h.clone n).1 (h.clone n).2 = some v := by rw [e1]; exact ev
+  have r := jvalEq_refl_nodes _ _ s' n v hn' evn nn
+  exact ⟨by rw [eq_value _ n _ v v s' c' hn' hr' evn evc, r], by rw [eq_value _ _ n v v s' c' hr' hn' evc evn, r]⟩
 
 /-- **the copy is a sound tree of its own**: after `Clone()` of any node of any sound acyclic heap the whole heap — the original,
 every other tree in play, and the copy — satisfies the structural invariant again and has no cycles: every node of the copy lists
